@@ -5,7 +5,7 @@
    on every run).  Definitions only; proofs are in FurlProofs.v. *)
 From Coq Require Import ZArith NArith List String Bool.
 Import ListNotations.
-Require Import Verif.lib.PyLite Verif.lib.Regex Verif.gen.FurlGen.
+Require Import Verif.lib.PyLite Verif.lib.Regex Verif.gen.FurlGen Verif.lib.Utf8.
 Local Open Scope Z_scope.
 
 Definition str := list Z.     (* a Python str: its code points *)
@@ -65,6 +65,46 @@ Definition decode_furl (s : str) : res (str * list str * str) :=
 Definition encode_furl (tub : str) (hs : list str) (name : str) : str :=
   ENC_PREFIX ++ tub ++ ENC_AT ++ join_with ENC_SEP hs ++ ENC_SLASH ++ name.
 
+(* ---- six.ensure_str on a bytes FURL: bytes.decode("utf-8", "strict").  CPython's decoder: shortest form only,
+   no surrogates, nothing above U+10FFFF; anything else is UnicodeDecodeError (a ValueError).  The encoder
+   `utf8` / `scalarb` are the ones of lib/Utf8.v (C10) *)
+Definition second3 (b c1 : Z) : bool := if b =? 224 then 160 <=? c1 else if b =? 237 then c1 <? 160 else true.
+Definition second4 (b c1 : Z) : bool := if b =? 240 then 144 <=? c1 else if b =? 244 then c1 <? 144 else true.
+
+Fixpoint utf8_dec (l : list Z) : option (list Z) :=
+  match l with
+  | [] => Some []
+  | b :: r =>
+      if (0 <=? b) && (b <? 128) then option_map (cons b) (utf8_dec r)
+      else if (194 <=? b) && (b <? 224) then
+        match r with
+        | c1 :: r1 => if is_cont c1 then option_map (cons ((b - 192) * 64 + (c1 - 128))) (utf8_dec r1) else None
+        | _ => None
+        end
+      else if (224 <=? b) && (b <? 240) then
+        match r with
+        | c1 :: c2 :: r2 =>
+            if is_cont c1 && is_cont c2 && second3 b c1
+            then option_map (cons ((b - 224) * 4096 + (c1 - 128) * 64 + (c2 - 128))) (utf8_dec r2) else None
+        | _ => None
+        end
+      else if (240 <=? b) && (b <? 245) then
+        match r with
+        | c1 :: c2 :: c3 :: r3 =>
+            if is_cont c1 && is_cont c2 && is_cont c3 && second4 b c1
+            then option_map (cons ((b - 240) * 262144 + (c1 - 128) * 4096 + (c2 - 128) * 64 + (c3 - 128))) (utf8_dec r3) else None
+        | _ => None
+        end
+      else None
+  end.
+
+(* decode_furl applied to a bytes object *)
+Definition decode_furl_bytes (b : list Z) : res (str * list str * str) :=
+  match utf8_dec b with
+  | None => Exc "UnicodeDecodeError"
+  | Some s => decode_furl s
+  end.
+
 (* ---- SturdyRef / TubRef identity: __eq__ and __hash__ go through _distinguishers() *)
 Record sref := { sr_tub : option str; sr_hints : list str; sr_name : option str; sr_url : option str }.
 
@@ -103,6 +143,29 @@ Definition field_val (f : idfield) (a : sref) : fval :=
   | FUrl => VStr (sr_url a)
   end.
 Definition sref_key (a : sref) : list fval := map (fun f => field_val f a) sturdyref_distinguishers.
+
+(* ---- SturdyRef.__lt__: `self._distinguishers() < them._distinguishers()` *)
+(* str < str: code point order, a proper prefix is smaller *)
+Fixpoint str_ltb (a b : str) : bool :=
+  match a, b with
+  | _, [] => false
+  | [], _ :: _ => true
+  | x :: a', y :: b' => if x <? y then true else if x =? y then str_ltb a' b' else false
+  end.
+
+(* tuple comparison of the translated _distinguishers(): the first field on which the two differ decides; a field
+   that is None on one side only cannot be ordered (TypeError), hint lists are not part of any key on this tree *)
+Fixpoint key_ltb (fs : list idfield) (a b : sref) : res bool :=
+  match fs with
+  | [] => Ok false
+  | f :: fs' =>
+      if field_eqb f a b then key_ltb fs' a b
+      else match field_val f a, field_val f b with
+           | VStr (Some x), VStr (Some y) => Ok (str_ltb x y)
+           | _, _ => Exc "TypeError"
+           end
+  end.
+Definition sref_ltb (a b : sref) : res bool := key_ltb sturdyref_distinguishers a b.
 
 (* SturdyRef(url) *)
 Definition sturdyref (url : str) : res sref :=
@@ -157,7 +220,6 @@ Definition convert_legacy_hint (loc : str) : res str :=
   end.
 
 (* ---- the three handlers *)
-Inductive hkind := KTcp | KTor | KI2p.
 Inductive endpoint :=
 | EpTcp (host : str) (port : Z)            (* HostnameEndpoint(reactor, host, port) *)
 | EpTor (host : str) (port : Z)            (* txtorcon.TorClientEndpoint(host, port, ..) *)
@@ -190,26 +252,46 @@ Definition tor_hint_to_endpoint (nonpublic : str -> bool) (hint : str) : res end
       end
   end.
 
-Definition i2p_hint_to_endpoint (hint : str) : res endpoint :=
+(* _RunningI2P keeps the keyword arguments it was created with; `dflt` = Some d when they contain port=d
+   (i2p.default(reactor, port=d) / i2p.sam_endpoint(ep, port=d)).  The code pops 'port' from the copy of the
+   Before commit 733f931 the code popped 'port' from the copy of the kwargs only when the hint had no port (or port 0);
+   otherwise the hint's port was passed positionally AND port=d by keyword, which Python rejects with TypeError
+   (pops = false).  Since 733f931 'port' is always popped and used when the hint has no non-zero port of its own
+   (pops = true).  `pops` = the translated shape fact FurlGen.I2P_POPS_PORT, so both forms stay in the model. *)
+Definition i2p_hint_to_endpoint (pops : bool) (dflt : option Z) (hint : str) : res endpoint :=
   match re_apply I2P_HINT_RE I2P_HINT_RE_method hint with
   | None => invalid
   | Some c =>
-      match group 3 c with
-      | None | Some [] => Ok (EpI2p (group_or_nil 1 c) None)      (* `if mo.group(3)` is false *)
-      | Some ds =>
-          match py_int ds with
-          | Exc e => Exc e
-          | Ok port => Ok (EpI2p (group_or_nil 1 c) (Some port))
-          end
+      let host := group_or_nil 1 c in
+      let portnum : res (option Z) :=
+        match group 3 c with
+        | None | Some [] => Ok None                             (* `if mo.group(3)` is false *)
+        | Some ds => match py_int ds with Exc e => Exc e | Ok port => Ok (Some port) end
+        end in
+      match portnum with
+      | Exc e => Exc e
+      | Ok pn =>
+          let falsy := match pn with None => true | Some v => v =? 0 end in     (* `not portnum` *)
+          if pops then Ok (EpI2p host (if falsy then dflt else pn))       (* 733f931: own non-zero port, else the default / None *)
+          else match dflt with
+               | None => Ok (EpI2p host pn)
+               | Some d => if falsy then Ok (EpI2p host (Some d)) else Exc "TypeError"
+               end
       end
   end.
 
-Definition hint_to_endpoint (nonpublic : str -> bool) (kd : hkind) (hint : str) : res endpoint :=
+(* a registered handler: one of foolscap's three, or any third-party plugin, abstracted to what its
+   hint_to_endpoint does with a hint (an endpoint, or the class name of the exception it raises) *)
+Inductive hkind := KTcp | KTor | KI2p (dflt : option Z) | KPlugin (f : str -> res endpoint).
+
+Definition hint_to_endpoint_gen (pops : bool) (nonpublic : str -> bool) (kd : hkind) (hint : str) : res endpoint :=
   match kd with
   | KTcp => tcp_hint_to_endpoint hint
   | KTor => tor_hint_to_endpoint nonpublic hint
-  | KI2p => i2p_hint_to_endpoint hint
+  | KI2p dflt => i2p_hint_to_endpoint pops dflt hint
+  | KPlugin f => f hint
   end.
+Definition hint_to_endpoint := hint_to_endpoint_gen I2P_POPS_PORT.
 
 (* ---- connection.get_endpoint: convert, find the type before the first ':', look up the plugin *)
 Fixpoint take_until (x : Z) (s : str) : str :=
@@ -221,16 +303,38 @@ Fixpoint lookup_handler (ty : str) (hs : list (str * hkind)) : option hkind :=
   | (n, kd) :: hs' => if list_eqb ty n then Some kd else lookup_handler ty hs'
   end.
 
-Definition get_endpoint (handlers : list (str * hkind)) (nonpublic : str -> bool) (loc : str) : res endpoint :=
+Definition get_endpoint_gen (pops : bool) (handlers : list (str * hkind)) (nonpublic : str -> bool) (loc : str) : res endpoint :=
   match convert_legacy_hint loc with
   | Exc e => Exc e
   | Ok hint =>
       if negb (zmem HINT_TYPE_SEP hint) then invalid
       else match lookup_handler (take_until HINT_TYPE_SEP hint) handlers with
            | None => invalid
-           | Some kd => hint_to_endpoint nonpublic kd hint
+           | Some kd => hint_to_endpoint_gen pops nonpublic kd hint
            end
   end.
+Definition get_endpoint := get_endpoint_gen I2P_POPS_PORT.
+
+(* ---- vocabulary of the step-count theorems about the FURL pattern (FurlProofs.v section 1) *)
+(* the pattern with a leading `^`: what `.match()` / an anchored pattern would try (position 0 only) *)
+Definition anchored (p : pattern) : pattern := {| p_anch := true; p_body := p_body p; p_groups := p_groups p |}.
+
+Fixpoint prefixb (w s : list Z) : bool :=
+  match w, s with
+  | [], _ => true
+  | a :: w', x :: s' => (x =? a) && prefixb w' s'
+  | _ :: _, [] => false
+  end.
+
+(* number of positions of s at which the word w starts *)
+Fixpoint occ (w s : list Z) : N :=
+  match s with
+  | [] => 0%N
+  | _ :: s' => ((if prefixb w s then 1 else 0) + occ w s')%N
+  end.
+
+(* "pb://" k times: the family of the known finding oracle/furl-quadratic *)
+Definition pb_repeat (k : nat) : list Z := List.concat (repeat ENC_PREFIX k).
 
 (* compact observation codes for the correspondence check *)
 Definition ep_code (r : res endpoint) : list (list Z) :=
@@ -239,11 +343,13 @@ Definition ep_code (r : res endpoint) : list (list Z) :=
   | Ok (EpTor h p) => [[2]; h; [p]]
   | Ok (EpI2p h (Some p)) => [[3]; h; [p]]
   | Ok (EpI2p h None) => [[3]; h; []]
-  | Exc e => if String.eqb e "InvalidHintError" then [[0]] else if String.eqb e "ValueError" then [[-1]] else [[-2]]
+  | Exc e => if String.eqb e "InvalidHintError" then [[0]] else if String.eqb e "ValueError" then [[-1]]
+             else if String.eqb e "TypeError" then [[-3]] else if String.eqb e "KeyError" then [[-4]] else [[-2]]
   end.
 
 Definition furl_code (r : res (str * list str * str)) : list (list Z) :=
   match r with
   | Ok (t, hs, n) => [1] :: t :: n :: hs
-  | Exc e => if String.eqb e "BadFURLError" then [[0]] else if String.eqb e "ValueError" then [[-1]] else [[-2]]
+  | Exc e => if String.eqb e "BadFURLError" then [[0]] else if String.eqb e "ValueError" then [[-1]]
+             else if String.eqb e "UnicodeDecodeError" then [[-3]] else [[-2]]
   end.
